@@ -614,10 +614,10 @@ func pairScenarios() []d1x.Scenario {
 		for _, b := range pairOps[i:] {
 			a, b := a, b
 			qb, tb := 1, 2
-			w := 1.0
+			w := 4.0
 			if heavy[a] || heavy[b] {
 				qb, tb = 0, 1
-				w = 2
+				w = 1
 			}
 			sc = append(sc, d1x.Scenario{Name: "pair-" + a + "+" + b, QuickBound: qb, ThoroughBound: tb, Weight: w, Judge: judgePair, MaxSteps: 400000,
 				New: func() vsched.Harness { return &pairH{ops: [2]string{a, b}} }})
